@@ -232,11 +232,6 @@ where
     }
 
     fn solve(&mut self, timeout: Duration) -> Result<Path<S>, PlanningError> {
-        let mut rng = self
-            .rng
-            .take()
-            .unwrap_or_else(|| Box::new(StdRng::from_os_rng()));
-        let start_time = Instant::now();
         let pd = self
             .problem_def
             .as_ref()
@@ -253,10 +248,17 @@ where
             return Err(PlanningError::InvalidStartState);
         }
 
+        let mut rng = self
+            .rng
+            .take()
+            .unwrap_or_else(|| Box::new(StdRng::from_os_rng()));
+        let start_time = Instant::now();
+
         // Main loop
         loop {
             // 1. Check for timeout
             if start_time.elapsed() > timeout {
+                self.rng = Some(rng);
                 return Err(PlanningError::Timeout);
             }
 
@@ -286,6 +288,7 @@ where
                 // If growing the start tree, check if the new node is already in the goal.
                 if is_growing_start_tree && goal.is_satisfied(q_new) {
                     println!("Solution found by start tree reaching goal directly.");
+                    self.rng = Some(rng);
                     return Ok(self.reconstruct_path(&self.start_tree, new_node_idx_a));
                 }
 
@@ -317,6 +320,7 @@ where
                         // connection point) to the start path.
                         start_path.extend(goal_path.into_iter().skip(1));
 
+                        self.rng = Some(rng);
                         return Ok(Path(start_path));
                     }
                 }
